@@ -152,6 +152,10 @@ func VerifyFunc(p *Program, ss *Sorts, reg *SpecReg, fc *FuncContract) (res *Fun
 		st.vars[obj] = sym
 		if isUnsigned(t) {
 			st.assume(T(sx(">=", sym.S, "0"), SBool))
+		} else {
+			for _, f := range fv.unsignedFacts(sym, t, 3) {
+				st.assume(T(f, SBool))
+			}
 		}
 		if specName != "_" && specName != "" {
 			fv.specParam[specName] = obj
